@@ -325,4 +325,87 @@ theorem double_write_frame (f1 x y : List Nat) (hx : x.length = 4) (hy : y.lengt
     have := (record_frame f1 4 x (by omega)).1
     rwa [hx] at this
 
+
+theorem fieldsP_sizes_sum : ∀ (fs : Fields) (off : Nat), ((fieldsP fs off).map (fun x => x.2.2)).sum = sizePs fs
+  | [], _ => rfl
+  | (n, t) :: r, off => by simp [fieldsP, sizePs, fieldsP_sizes_sum r]
+
+/-! ### histories -/
+
+def HStep.isFail : HStep → Bool
+  | .fail => true
+  | _ => false
+
+theorem runHist_snd_cons (c : Config) (s : HFiles) (st : HStep) (r : List HStep) :
+    (runHist c s (st :: r)).2 = (runHist c (hstep c s st).2 r).2 := by
+  simp [runHist]
+
+theorem runHist_append_one (c : Config) : ∀ (pre : List HStep) (s : HFiles) (st : HStep),
+    (runHist c s (pre ++ [st])).2 = (hstep c (runHist c s pre).2 st).2
+  | [], s, st => by simp [runHist]
+  | p :: pre, s, st => by
+      rw [List.cons_append, runHist_snd_cons, runHist_snd_cons]
+      exact runHist_append_one c pre _ st
+
+theorem runHist_filter_fail (c : Config) : ∀ (h : List HStep) (s : HFiles),
+    (runHist c s (h.filter (fun st => !st.isFail))).2 = (runHist c s h).2
+  | [], s => rfl
+  | st :: r, s => by
+      cases st with
+      | fail =>
+        simp only [List.filter, HStep.isFail, Bool.not_true]
+        rw [runHist_snd_cons]
+        exact runHist_filter_fail c r s
+      | upd fn uid v =>
+        simp only [List.filter, HStep.isFail, Bool.not_false]
+        rw [runHist_snd_cons, runHist_snd_cons]
+        exact runHist_filter_fail c r _
+      | whole uid v =>
+        simp only [List.filter, HStep.isFail, Bool.not_false]
+        rw [runHist_snd_cons, runHist_snd_cons]
+        exact runHist_filter_fail c r _
+      | app v =>
+        simp only [List.filter, HStep.isFail, Bool.not_false]
+        rw [runHist_snd_cons, runHist_snd_cons]
+        exact runHist_filter_fail c r _
+
+/-! ### concurrent writers -/
+
+/-- invariant of the private-scratch semantics: a writer's scratch is empty or its own image, and its file
+consists of whole copies of its own image. -/
+def WInv (img : Nat → List Nat) (s : WState) : Prop :=
+  ∀ i, (s.scratch i = [] ∨ s.scratch i = img i) ∧ ∃ k, s.files i = (List.replicate k (img i)).flatten
+
+theorem wstep_inv (img : Nat → List Nat) (s : WState) (st : WStep) (h : WInv img s) : WInv img (wstep img s st) := by
+  intro i
+  cases st with
+  | enc j =>
+    simp only [wstep]
+    refine ⟨?_, (h i).2⟩
+    by_cases hj : i = j
+    · subst hj; simp
+    · simp [hj]; exact (h i).1
+  | wr j =>
+    simp only [wstep]
+    refine ⟨(h i).1, ?_⟩
+    by_cases hj : i = j
+    · subst hj
+      obtain ⟨k, hk⟩ := (h i).2
+      rcases (h i).1 with h0 | h1
+      · exact ⟨k, by simp [hk, h0]⟩
+      · refine ⟨k + 1, ?_⟩
+        simp only [if_true, hk, h1]
+        rw [List.replicate_succ']
+        simp
+    · simp [hj]; exact (h i).2
+
+theorem wrun_inv (img : Nat → List Nat) : ∀ (sched : List WStep) (s : WState), WInv img s → WInv img (wrun img s sched)
+  | [], s, h => h
+  | st :: r, s, h => by
+      simp only [wrun, List.foldl]
+      exact wrun_inv img r _ (wstep_inv img s st h)
+
+theorem winit_inv (img : Nat → List Nat) : WInv img winit := by
+  intro i; exact ⟨Or.inl rfl, 0, rfl⟩
+
 end PttVerif.C01
